@@ -488,3 +488,33 @@ Proof.
   vm_compute. intros [_ [_ [H _]]]. inversion H as [|? ? A _]. apply A. reflexivity.
 Qed.
 End C03_autowrite.
+
+(* ================================================================== the autowrite of bufs_modified ON THE C TEXT (coq/TrQuit.v, tr-quit's
+   translation of ex.c's bufs_modified, whitelist tools/c2clite.d/87_quit.list; lbuf_save is the oracle index X_lbuf_save -- its own text is
+   C03_tr_lbuf_save).  With xaw != 0, on a slot whose buffer lbuf_modified reports modified and whose path is not "": the translated text
+   bumps the command counter of that buffer (cell useq: memory m1), calls lbuf_save(b->lb, 0, -1, b->path, 0, b->mtime) -- WITHOUT force,
+   with the slot's own remembered stamp -- and returns whether the answer r is a message; the memory it leaves is EXACTLY the memory m2 the
+   save left: no cell of bufs[] (the remembered stamp b->mtime), no cell of the struct lbuf (the saved mark) is written after the save,
+   whatever the save answered, and no other untranslated function (mtime, lbuf_saved, ex_show) is called.  This is IoAwDefs.bufs_modified's
+   `(match st with SOk => false | _ => true end, st, bf, fs', r)`: the record bf handed back unchanged.  A rewrite that re-reads the stamp or
+   marks the buffer saved inside the autowrite -- before or after looking at r -- breaks this statement. *)
+From NV Require CLite CLiteProps GenCFuncs CLiteTac CLiteExt TrLbufBase TrLbuf TrBufs TrBufsLbuf TrQuit UndoDefs.
+Section C03_translated_autowrite.
+Import CLite CLiteProps GenCFuncs CLiteTac CLiteExt TrLbufBase TrLbuf TrBufs TrQuit.
+Local Open Scope Z_scope.
+
+Theorem C03_tr_bufs_modified_aw : forall ext m t i bl blk lb msg a pb p m2 d fuel, tab_at m t -> tab_ok t -> (i < 16)%nat ->
+  cs_lb (nths t i) = VPtr bl 0 -> lbuf_rep m bl blk lb -> lbuf_ints lb -> UndoDefs.useq lb < 2147483647 ->
+  snd (UndoDefs.lbuf_modified lb) = true -> bl <> G_xaw -> bl <> G_bufs -> cell_at m G_xaw a -> int_ok a -> a <> 0 -> ptr_val msg ->
+  cs_path (nths t i) = VPtr pb 0 -> str_at m pb p -> nonul p -> pb <> bl ->
+  let m1 := bump_mem m bl blk lb in
+  match p with
+  | [] => show_call ext msg m1 m2 ->
+          callx ext cprog fuel (S (S (S d))) F_bufs_modified [VInt (Z.of_nat i); msg] m = Ok (VInt 1, m2)
+  | _ :: _ => forall r, ptr_val r ->
+          ext X_lbuf_save [VPtr bl 0; VInt 0; VInt (-1); VPtr pb 0; VInt 0; VInt (wrap I64 (cs_mtime (nths t i)))] m1 = Ok (r, m2) ->
+          callx ext cprog fuel (S (S (S d))) F_bufs_modified [VInt (Z.of_nat i); msg] m = Ok (VInt (b2z (negb (is_null r))), m2)
+  end.
+Proof. exact tr_bufs_modified_aw. Qed.
+Print Assumptions C03_tr_bufs_modified_aw.
+End C03_translated_autowrite.
